@@ -250,6 +250,9 @@ static void handle_line(int nf, char **f) {
         char *at = strstr(b.p, "@PID@");
         if (at) snprintf(nm, sizeof nm, "%.*s%s%s", (int)(at - b.p), b.p, pid, at + 5); else snprintf(nm, sizeof nm, "%s", b.p);
         prctl(PR_SET_NAME, nm, 0, 0, 0);
+    } else if (!strcmp(f[0], "ruid") && nf >= 2) {
+        /* real uid <n>, effective and saved uid unchanged (the state of a set-uid-root program started by user <n>) */
+        if (setresuid((uid_t) atol(f[1]), (uid_t) -1, (uid_t) -1)) recf("note\truid-failed\n");
     } else if (!strcmp(f[0], "stack") && nf >= 2) { STACK_KIB = (size_t) atol(f[1]);
     } else if (!strcmp(f[0], "libcbuf") && nf >= 2) { LIBCBUF = atoi(f[1]);
     } else if (!strcmp(f[0], "errno") && nf >= 2) { PRESET_ERRNO = atoi(f[1]);
